@@ -42,6 +42,15 @@ func (fr *Frame) step(instr ssa.Instruction, st *State) *State {
 	case *ssa.IndexAddr:
 		fr.vals[x] = fr.doIndexAddr(x, st)
 	case *ssa.Index:
+		if isString(x.X.Type()) {
+			xv := ex.val(fr, x.X, st)
+			i := ex.val(fr, x.Index, st).one()
+			fr.oblige(st, "index", exprLabel(fr, x.X)+"["+exprLabel(fr, x.Index)+"]", And(Le(Int(0), i), Lt(i, slen(xv.one()))), x.Pos())
+			c := sat(xv.one(), i)
+			ex.fact(And(Le(Int(0), c), Le(c, Int(255))))
+			fr.vals[x] = Val{T: x.Type(), L: []Term{c}}
+			return st
+		}
 		unsup("Index on array value")
 	case *ssa.Lookup:
 		fr.vals[x] = fr.doLookup(x, st)
